@@ -200,8 +200,41 @@ func bvValue(s string) (uint64, bool) {
 	return 0, false
 }
 
-// Run executes one harness job.
+// Run executes one harness job (loading the program first).
 func Run(o Opts) *report.Report {
+	t0 := time.Now()
+	l, err := Load(o.Dir, o.Overlay)
+	if err != nil {
+		return &report.Report{Harness: o.Harness, K: o.K, U: o.U, Status: "inconclusive", Reason: "load: " + err.Error()}
+	}
+	rep := RunLoaded(l, o)
+	rep.LoadSec = time.Since(t0).Seconds() - rep.EncSec - rep.SolSec
+	return rep
+}
+
+// RunMany loads once and runs the harness once per case split in fixes.
+func RunMany(o Opts, fixes []string) []*report.Report {
+	t0 := time.Now()
+	l, err := Load(o.Dir, o.Overlay)
+	if err != nil {
+		return []*report.Report{{Harness: o.Harness, K: o.K, U: o.U, Status: "inconclusive", Reason: "load: " + err.Error()}}
+	}
+	ld := time.Since(t0).Seconds()
+	var out []*report.Report
+	for i, f := range fixes {
+		o2 := o
+		o2.Fix = f
+		r := RunLoaded(l, o2)
+		if i == 0 {
+			r.LoadSec = ld
+		}
+		out = append(out, r)
+	}
+	return out
+}
+
+// RunLoaded executes one harness job on a loaded program.
+func RunLoaded(l *Loaded, o Opts) *report.Report {
 	rep := &report.Report{Harness: o.Harness, K: o.K, U: o.U, MapCap: o.MapCap, Fix: o.Fix, Status: "ok",
 		Bounds: map[string]string{}, Covers: map[string]string{}}
 	logf := func(format string, a ...interface{}) {
@@ -223,19 +256,11 @@ func Run(o Opts) *report.Report {
 	if o.Solver == "" {
 		o.Solver = "z3"
 	}
-	t0 := time.Now()
-	l, err := Load(o.Dir, o.Overlay)
-	if err != nil {
-		return inconclusive("load: " + err.Error())
-	}
 	entry := l.Entry(o.Harness)
 	if entry == nil {
 		return inconclusive("harness not found: " + o.Harness)
 	}
-	rep.LoadSec = time.Since(t0).Seconds()
-	logf("load+ssa %.1fs\n", rep.LoadSec)
-
-	t0 = time.Now()
+	t0 := time.Now()
 	m := eng.NewM(l.Prog, o.U, o.K)
 	m.Trace = o.Trace
 	m.RaceCheck = o.Race
@@ -439,6 +464,9 @@ func Run(o Opts) *report.Report {
 				sv = int64(v) - (1 << uint(t.S))
 			}
 			tr.Inputs[k] = append(tr.Inputs[k], sv)
+		}
+		for k, v := range m.Fix {
+			tr.Inputs["fix!"+k] = []int64{v}
 		}
 		return tr, sites
 	}
